@@ -219,6 +219,11 @@ func c20SchedScenarios(tier string) []*SchedScenario {
 			Threads: [][]Action{{cmdOn(0, "SET", "a", "zero"), cmdOn(0, "SET", "c", "zero")}, {cmdOn(1, "SET", "b", "one"), cmdOn(1, "SET", "d", "one")}}, Bound: bound, MaxExec: 60000, Restorable: true, RestoreAOF: true},
 		{Name: "db12 RPUSH l || db0 DEL l || db1 INCR n, then restart from the log", Cfg: cfg, Setup: []Action{cmdOn(0, "SELECT", "12"), cmdOn(2, "SELECT", "1"), cmdOn(1, "RPUSH", "l", "x")},
 			Threads: [][]Action{{cmdOn(0, "RPUSH", "l", "y")}, {cmdOn(1, "DEL", "l")}, {cmdOn(2, "INCR", "n")}}, Bound: bound - 1, MaxExec: 60000, Restorable: true, RestoreAOF: true},
+		// the two commands that touch the connection table and the set of databases from opposite ends
+		{Name: "SWAPDB 0 1 || SELECT 1 ; SET k", Cfg: InstCfg{}, Setup: []Action{cmdOn(0, "SET", "seed", "0")},
+			Threads: [][]Action{{cmdOn(0, "SWAPDB", "0", "1")}, {cmdOn(1, "SELECT", "1"), cmdOn(1, "SET", "k", "v")}}, Bound: bound, MaxExec: 60000},
+		{Name: "SWAPDB 0 12 || SELECT 12 || SELECT 0", Cfg: InstCfg{}, Setup: []Action{cmdOn(0, "SET", "seed", "0")},
+			Threads: [][]Action{{cmdOn(0, "SWAPDB", "0", "12")}, {cmdOn(1, "SELECT", "12")}, {cmdOn(2, "SELECT", "0")}}, Bound: bound - 1, MaxExec: 60000},
 	}
 }
 
